@@ -1,6 +1,7 @@
 import Arp.Model.Proto
 import Arp.Model.Trans
 import Arp.Model.Str
+import Arp.Model.Limbs
 /-!
 # `arpdrv` — line protocol driver
 
@@ -80,6 +81,40 @@ def natOp (wide : Bool) (op : String) (a b : Nat) : Option String :=
   | "tof32" => some (if (x.cast FP32).isNan then "nan" else toString x.asF32)
   | "cmp" => some (b01 (x.lt y) ++ b01 (x.le y) ++ b01 (x.gt y) ++ b01 (x.ge y) ++ b01 (x.beq y))
   | _ => none
+
+/-- limb list (little endian) of a `hex/len` token -/
+def toLimbs (v len : Nat) : List Nat := (List.range len).map (fun i => (v >>> (64 * i)) % 2 ^ 64)
+
+/-- the limb-level MODEL of the BigInt operations (same answer format as `bigSpec`) -/
+def bigModel (op : String) (args : List String) : Option String :=
+  let lim (t : String) : Option (List Nat) := (parseBigTok t).map (fun vl => toLimbs vl.1 vl.2)
+  let hv (l : List Nat) : String := toHex (Limbs.val l)
+  match op, args with
+  | "add", [a, b] => do let x ← lim a; let y ← lim b; pure (hv (Limbs.addSlice x y))
+  | "sub", [a, b] => do let x ← lim a; let y ← lim b
+                        let r := Limbs.subSlice x y 0
+                        pure (hv r.1 ++ " " ++ b01 r.2)
+  | "mul", [a, b] => do let x ← lim a; let y ← lim b; pure (hv (Limbs.mul x y))
+  | "div", [a, b] => do let x ← lim a; let y ← lim b
+                        if Limbs.isZero y then none else
+                        let r := Limbs.divRem x y
+                        pure (hv r.1 ++ " " ++ hv r.2)
+  | "shl", [a, n] => do let x ← lim a; let k ← n.toNat?; pure (hv (Limbs.shiftLeft x k))
+  | "shr", [a, n] => do let x ← lim a; let k ← n.toNat?; pure (hv (Limbs.shiftRight x k))
+  | "mask", [a, n] => do let x ← lim a; let k ← n.toNat?; pure (hv (Limbs.mask x k))
+  | "powi", [a, n] => do let x ← lim a; let k ← n.toNat?; pure (hv (Limbs.powi x k))
+  | "msb", [a] => do let x ← lim a; pure (toString (Limbs.msbIndex x))
+  | "tz", [a] => do let x ← lim a; if Limbs.isZero x then none else pure (toString (Limbs.trailingZeros x))
+  | "cmp", [a, b] => do let x ← lim a; let y ← lim b
+                        let c := Limbs.cmp x y
+                        pure (showOrd (some c) ++ " " ++ b01 (c == .eq) ++ " " ++ b01 (c == .lt))
+  | "dec", [a] => do let x ← lim a; pure (Limbs.asDecimal x)
+  | "bin", [a] => do let x ← lim a; pure (Limbs.asBinary x)
+  | "flags", [a] => do let x ← lim a
+                       pure (b01 (Limbs.isZero x) ++ " " ++ b01 (x.headD 0 % 2 == 0) ++ " " ++ b01 (x.headD 0 % 2 == 1))
+  | "allones", [n] => do let k ← n.toNat?; pure (hv (Limbs.all1s k))
+  | "onehot", [n] => do let k ← n.toNat?; pure (hv (Limbs.oneHot k))
+  | _, _ => none
 
 def bad : String := "bad-op\t-\t-"
 
@@ -171,9 +206,9 @@ def handle (toks : List String) : String :=
      | some a, some b => (match natOp false op a b with | some r => out r "-" op | none => bad)
      | _, _ => bad)
   | "big" :: op :: args =>
-    (match bigSpec op args with
-     | some r => out r r op
-     | none => bad)
+    (match bigModel op args, bigSpec op args with
+     | some m, some r => out m r op
+     | _, _ => bad)
   | ["operu", op, s, a, n] =>
     (match parseSem s, n.toNat? with
      | some F, some n =>
@@ -279,7 +314,7 @@ def handle (toks : List String) : String :=
     (match parseSem s with
      | some F =>
        (match name with
-        | "pi" => (match piFuel 100000 F with | some r => out (showFlt r) "-" "-" | none => out "FUEL" "-" "-")
+        | "pi" => (match piFuel 200 F with | some r => out (showFlt r) "-" "-" | none => out "FUEL" "-" "-")
         | "e" => out (showFlt (eConst F)) "-" "-"
         | "ln2" => out (showFlt (ln2Const F)) "-" "-"
         | _ => bad)
@@ -292,7 +327,7 @@ def handle (toks : List String) : String :=
           let r : Option (Option Flt) := match name with
             | "exp" => some (x.expFuel 1000000) | "log" => some (x.logFuel 100000)
             | "sigmoid" => some (x.sigmoidFuel 1000000)
-            | "sin" => some (x.sinFuel 100000) | "cos" => some (x.cosFuel 100000) | "tan" => some (x.tanFuel 100000)
+            | "sin" => some (x.sinFuel 200) | "cos" => some (x.cosFuel 200) | "tan" => some (x.tanFuel 200)
             | "sqr" => some (some x.sqr)
             | _ => none
           (match r with
